@@ -24,7 +24,8 @@ ASSUMPTIONS = ["fresh subprocess per shard; test modules are synthetic ModuleTyp
                "a thread that does not reach its next hook point within 50 ms is treated as blocked on glue_lock "
                "(scheduling heuristic only; never a verdict)"]
 MIN_NONTRIVIAL = {"quick": 1500, "thorough": 30000}
-REQUIRED_COUNTERS = {"histories": {"quick": 1500, "thorough": 30000},
+REQUIRED_COUNTERS = {"entry_extract_outermost": {"quick": 500, "thorough": 5000},
+                     "histories": {"quick": 1500, "thorough": 30000},
                      "helper_modules_imported_during_scan": {"quick": 100, "thorough": 2000},
                      "late_module_injections": {"quick": 200, "thorough": 4000},
                      "linepause_cases": {"quick": 100, "thorough": 200},
@@ -121,6 +122,11 @@ def worker(spec):
             finally:
                 LOG.append(("end", "builtin", name, None, threading.get_ident()))
         return b
+
+    class _EmptyOK(object):
+        error = None
+
+    EMPTY_OK = _EmptyOK()
 
     def reset():
         for n in names + [h.__name__ for h in IMPORTED] + ["vvlate"]:
@@ -237,10 +243,24 @@ def worker(spec):
                     len_now = len(sys.modules)
                     cached = cache[0]
                     helpers_before = list(IMPORTED)   # appeared before this extraction started
+                    # any of the public entry points is "an extraction"
+                    entry = rng.choice(("extract", "extract", "extract_outermost", "extract_since", "extract_until"))
+                    res.count("entry_" + entry)
                     with warnings.catch_warnings(record=True) as w:
                         warnings.simplefilter("always")
-                        s = stackscope.extract(0)
-                    ops.append(("extract",))
+                        if entry == "extract":
+                            s = stackscope.extract(0)
+                        elif entry == "extract_outermost":
+                            try:
+                                stackscope.extract_outermost(0)
+                            except RuntimeError:
+                                pass
+                            s = EMPTY_OK
+                        elif entry == "extract_since":
+                            s = stackscope.extract_since(sys._getframe(0))
+                        else:
+                            s = stackscope.extract_until(sys._getframe(0), limit=1)
+                    ops.append((entry,))
                     exp = []
                     exp_raising = 0
                     # helper modules inserted by glue during an earlier scan are present now
